@@ -62,7 +62,17 @@ def compile_run(name, cpp_text, args=(), exclude_objs=(), sanitize=False, timeou
         if not ok:
             return 99, "private build of /repo failed:\n" + out, ""
         objs = core_objects(exclude_objs)
-    cmd = ["g++", "-std=c++17", "-O0", "-g", "-w"] + (["-fsanitize=undefined", "-fno-sanitize-recover=undefined"] if sanitize else []) + \
+    defs = []
+    try:
+        import json as _json
+        import re as _re
+        for ent in _json.load(open(os.path.join(BUILD, "compile_commands.json"))):
+            if "/lib/mathlib.cpp" in ent.get("file", ""):
+                defs = sorted(set(_re.findall(r'(?<=\s)-D\S+', ent.get("command", ""))))
+                break
+    except (OSError, ValueError):
+        pass
+    cmd = ["g++", "-std=c++11", "-O0", "-g", "-w"] + defs + (["-fsanitize=undefined", "-fno-sanitize-recover=undefined"] if sanitize else []) + \
         INCLUDES + ["-o", exe, src] + objs + ["-lpthread"]
     p = subprocess.run(cmd, stdout=subprocess.PIPE, stderr=subprocess.STDOUT)
     if p.returncode != 0:
